@@ -7,6 +7,7 @@ import Pcore.Proofs.CtorCoerce
 import Pcore.Proofs.CtorHash
 import Pcore.Proofs.CtorBinary
 import Pcore.Proofs.CtorTimespan
+import Pcore.Proofs.CtorInit
 import Pcore.Model.CtorNew
 import Pcore.Generated.FnFacts
 /-!
@@ -93,6 +94,11 @@ Full statement / proved / missing
 * `Alpha.C16_init_args`, `Alpha.C16_init_plain` — `Init[T, a…].new(x…) = T.new(x…, a…)`; without init arguments
                          `Init[T].new(x…) = T.new(x…)` when a signature accepts `x…`, else `T.new(*x)` for a single array; in
                          every case the result is asserted against T (`C16_newm` covers `Init[T, a…]`).
+* `Alpha.C16_init_instance`, `Alpha.C16_init_type_quirks` — `InitType.IsInstance`: `v` is an instance of `Init[T, a…]` IFF the
+                         call `Init[T, a…].new(v)` makes (`createArgs`) is accepted by a signature of T's constructor; then the
+                         body of a creator whose declaration the arguments satisfy runs, otherwise `new` is the dispatch's
+                         ILLEGAL_ARGUMENTS.  `Init[wrapper]` raises CTOR_NOT_FOUND from `IsInstance`; the default `Init`
+                         accepts every value; `IsAssignable` with a contained type is false for every type (as the code is).
 * `Alpha.C16_coerce`, `Alpha.C16_coerce_shape`, `Alpha.C16_coerce_wrapper` — `types.CoerceTo(T, v)` (instance test, ONE
                          `Optional` removed, Array / Hash / Struct element-wise, else `new(T', v)`): the result is an instance
                          of the REQUESTED type T; instances are returned unchanged; `Optional[T]` picks T's constructor;
@@ -582,6 +588,46 @@ theorem C16_init_plain (t : Ty) (c : Ctor) (hc : ctorOf pf t = .some c) (args : 
   · rintro vs rfl h
     simp [newModel, recvOf, hc, newInstance, initCall, h]
 
+/-! ### `Init[T]` as a type: `IsInstance` is the signature test of `new` -/
+
+/-- the dispatch tables of the modelled constructors are accepted by the builder -/
+theorem ctorOf_builds (t : Ty) (c : Ctor) (h : ctorOf pf t = .some c) : ∃ bs, buildAll c.creators = .ok bs := by
+  cases t <;> simp [ctorOf] at h <;> subst h <;> exact ⟨_, rfl⟩
+
+/-- `v` is an instance of `Init[T, ia…]` IFF the call that `Init[T, ia…].new(v)` makes — `createArgs`: the value followed by
+    the init arguments, or the value alone, or its elements when it is an array that no signature accepts whole — is
+    accepted by some signature of T's constructor.  Then `new` runs the body of a creator whose declaration the arguments
+    satisfy; otherwise `new` is the dispatch's ILLEGAL_ARGUMENTS -/
+theorem C16_init_instance (t : Ty) (c : Ctor) (hc : ctorOf pf t = .some c) (ia : List Val) (v : Val) :
+    (initIsInstance pf (.init t ia) v = .ok true ↔ anyCallable c (createArgs c ia [v]) = true) ∧
+    (initIsInstance pf (.init t ia) v = .ok true →
+      ∃ i cr, c.creators[i]? = some cr ∧ CreatorAccepts inst binst cr (createArgs c ia [v]) (none : Option Blk) ∧
+        initCall c ia [v] = c.body i (createArgs c ia [v])) ∧
+    (initIsInstance pf (.init t ia) v = .ok false →
+      newModel pf (.init t ia) [v] = some (.reported "ILLEGAL_ARGUMENTS")) := by
+  have hshape : initIsInstance pf (.init t ia) v = .ok (anyCallable c (createArgs c ia [v])) := by
+    simp only [initIsInstance, hc, initInstance_iff]
+  rw [hshape]
+  refine ⟨?_, ?_, ?_⟩
+  · constructor
+    · intro h; exact Except.ok.inj h
+    · intro h; rw [h]
+  · intro h
+    obtain ⟨i, cr, hcr, hacc, hbody⟩ := anyCallable_true c _ (Except.ok.inj h)
+    exact ⟨i, cr, hcr, hacc, by rw [initCall_eq, hbody]⟩
+  · intro h
+    have := anyCallable_false c (ctorOf_builds pf t c hc) _ (Except.ok.inj h)
+    simp [newModel, recvOf, hc, newInstance, initCall_eq, this]
+
+/-- `Init[W]` around a type without constructor raises CTOR_NOT_FOUND from `IsInstance` too; the default `Init` accepts every
+    value of the alphabet (RichData); `IsAssignable` of an `Init[T, …]` with a contained type is false for every type -/
+theorem C16_init_type_quirks (w : Ty) (hw : IsWrapper w) (t o : Ty) (c : Ctor) (hc : ctorOf pf t = .some c) (ia : List Val)
+    (v : Val) :
+    initIsInstance pf (.init w ia) v = .error "CTOR_NOT_FOUND" ∧ initIsInstance pf .initDefault v = .ok true ∧
+    initIsAssignable pf t ia o = .ok false := by
+  refine ⟨?_, rfl, by simp [initIsAssignable, hc]⟩
+  cases w <;> simp [IsWrapper] at hw <;> simp [initIsInstance, ctorOf]
+
 /-- what `CoerceTo(T, v)` returns is an instance of the REQUESTED type `T` — through `Optional`, into the elements of
     arrays, the keys and values of hashes and the members of structs, and through every constructor it ends in -/
 theorem C16_coerce (t : Ty) (v r : Val) (h : coerceTo pf t v = .value r) : inst t r = true := coerce_sound pf t v r h
@@ -684,6 +730,14 @@ example : outText (newModel pfx (.plain structA) [.arr [.arr [.arr [.str "a"], .
     "value (h ((s a) (i 1)))" := by decide +kernel
 example : outText (newModel pfx (.plain structA) [.arr [.arr [.arr [.str "a", .str "b"], .int 1]], .str "tree"]) =
     "reported TYPE_MISMATCH" := by decide +kernel
+
+-- Init[T] as a type (C16_init_instance): '0x1F' is an instance of Init[Integer,16] and of Init[Integer] through the
+-- expanded array ['0x1F', 16]; ['0x1F', 16] is NOT an instance of Init[Integer,16] (one argument followed by 16)
+example : (initIsInstance pfx (.init (.int none none) [.int 16]) (.str "0x1F")).toOption = some true := by decide +kernel
+example : (initIsInstance pfx (.init (.int none none) []) (.arr [.str "0x1F", .int 16])).toOption = some true := by decide +kernel
+example : (initIsInstance pfx (.init (.int none none) [.int 16]) (.arr [.str "0x1F", .int 16])).toOption = some false := by
+  decide +kernel
+example : (initIsInstance pfx (.init (.int none none) []) (.str "z")).toOption = some false := by decide +kernel
 
 -- wrappers, Init[T, args], CoerceTo (hypotheses of C16_init_args / C16_init_plain / C16_coerce / C16_coerce_shape / _wrapper)
 example : outText (newModel pfx (.init (.int none none) [.int 16]) [.str "0x1F"]) = "value (i 31)" := by decide +kernel
